@@ -358,7 +358,11 @@ CLAIMED["C09"] = (
     "to it (run_read); compared with the real paragraphs after every assignment.  TextFrame.auto_size (Model/Autofit, Props/C09T): "
     "from ANY autofit children (several, of several kinds, a:normAutofit with fontScale) a member reads back, None restores "
     "inheritance, a non-member is refused with nothing changed, at most one bare child is left (one_child), and after ANY history "
-    "the reading is the last accepted value (run_read); compared with real text frames after every assignment.",
+    "the reading is the last accepted value (run_read); compared with real text frames after every assignment.  LineFormat.width / "
+    ".dash_style (Model/LineFmt, Props/C09L): from ANY a:ln (none, @w, a:prstDash, a:custDash, both) a width in 0..20116800 reads back "
+    "exactly, a member reads back with a:custDash gone, None gives 0 / inheritance, a refused value changes NOTHING (no a:ln is "
+    "created: refused_unchanged - the theorem whose comparison found the DASH_STYLE_MIXED defect), width and dash style are "
+    "independent, and after ANY history each is its last accepted value (run_width, run_dash).",
     "Property table and domains are written by hand from the docstrings (trusted input); couplings documented by the "
     "library are excepted from independence; floats are dyadic rationals in the exact comparison.  Seven enum-alias "
     "findings (shared with C20) are listed.",
